@@ -10,6 +10,9 @@ def check(ctx):
     core3.top_module_helper(ctx, "C06")
     core3.tmodule_control_table(ctx, "C06", want_enter=False, want_mirror=True)
     core2.body_wrappers(ctx, "C06")
+    # a nested body's statements sit under AvoidedIf(run) of every enclosing body: they take effect when the nested body
+    # runs only because a nested body is ready-dependent on its direct parent (it never runs without it)
+    core2.mgr_ready_dependencies(ctx, "C06")
     from . import core6
 
     core6.tmodule_fsm_restore(ctx, "C06")
